@@ -56,6 +56,7 @@ MSG = [b"Subject: m%d\r\nFrom: a@b\r\n\r\nbody %d\r\n" % (i, i) for i in range(3
 def fetch_step(k: int, un1: bool, un2: bool, rc1: bool, rc2: bool, x1: bool, idle: bool, s: int) -> bool:
     """
     pre: k == core.PARAMS["k"] and 1 <= s <= 2
+    pre: (core.PARAMS.get("s") is None or s == core.PARAMS["s"]) and (core.PARAMS.get("idle") is None or idle == core.PARAMS["idle"])
     post: _
     """
     return held(_fetch_step, locals())
@@ -142,7 +143,9 @@ def _fetch_step(k, un1, un2, rc1, rc2, x1, idle, s):
 
 
 for _k in range(len(FETCHES)):
-    EXTRA_JOBS.append({"name": f"fetch_step[{FETCHES[_k][0]}]", "module": "harness.c04", "fn": "fetch_step", "params": {"k": _k, "prop": "C04"}, "timeout": 300, "per_path": 90})
+    for _s in (1, 2):
+        for _idle in (False, True):
+            EXTRA_JOBS.append({"name": f"fetch_step[{FETCHES[_k][0]},s={_s},idle={int(_idle)}]", "module": "harness.c04", "fn": "fetch_step", "params": {"k": _k, "prop": "C04", "s": _s, "idle": _idle}, "timeout": 600, "per_path": 90})
 EXTRA_SAMPLES += [
     {"fn": "fetch_step", "params": {"k": 3, "prop": "C04"}, "args": {"k": 3, "un1": True, "un2": True, "rc1": True, "rc2": False, "x1": True, "idle": False, "s": 1}},
     {"module": "harness.mboxops", "fn": "store_step", "params": {"n": 2, "x": "Deleted", "action": 1, "fs": 3, "prop": "C04"}, "args": {"k1": 2, "k2": 3, "k3": 1, "sn1": True, "sn2": False, "sn3": True, "x1": False, "x2": True, "x3": False, "rc1": True, "rc2": False, "rc3": True, "a1": True, "a2": True, "a3": False, "action": 1, "fs": 3, "uidcmd": False, "idle": True}},
